@@ -12,6 +12,8 @@ import (
 	"sort"
 	"strconv"
 	"strings"
+	"sync"
+	"sync/atomic"
 
 	"github.com/openebs/jiva/replica"
 	jsync "github.com/openebs/jiva/sync"
@@ -147,6 +149,49 @@ func (im *Impl) Exec(line string) (out string) {
 		}
 		_, err := im.S.WriteAt(Payload(off, n, tag), int64(off*Unit))
 		return res(err)
+	case "cw":
+		// n whole-block writes issued from 4 goroutines while 3 pollers read the counter;
+		// block i%nb always gets the same payload, so the result does not depend on the order
+		n, tag := atoi(w[1]), atoi(w[2])
+		r := im.rep()
+		if r == nil || (r.VerifMode() != "RW" && r.VerifMode() != "WO") {
+			return "refused"
+		}
+		nb := len(r.VerifLocation())
+		var wg sync.WaitGroup
+		var failed int32
+		stop := make(chan struct{})
+		for p := 0; p < 3; p++ {
+			go func() {
+				for {
+					select {
+					case <-stop:
+						return
+					default:
+						r.GetRevisionCounter()
+					}
+				}
+			}()
+		}
+		for g := 0; g < 4; g++ {
+			wg.Add(1)
+			go func(g int) {
+				defer wg.Done()
+				for i := g; i < n; i += 4 {
+					b := i % nb
+					buf := Payload(0, im.BS*(b+1), tag)[b*im.BS*Unit:]
+					if _, err := im.S.WriteAt(buf, int64(b*Blk)); err != nil {
+						atomic.AddInt32(&failed, 1)
+					}
+				}
+			}(g)
+		}
+		wg.Wait()
+		close(stop)
+		if failed > 0 {
+			return "refused"
+		}
+		return "ok"
 	case "r":
 		off, n := atoi(w[1]), atoi(w[2])
 		if im.rep() == nil || off+n > im.nbUnits() {
